@@ -427,9 +427,14 @@ impl World {
             for n in &nats {
                 let at = usize::from(n.at);
                 if at < pos || (at == pos && n.inclusive) {
-                    cur_src = host_addr(w.v6, 0x4000 | n.new_src);
-                    if let Some(p) = n.new_sport {
-                        cur_sport = p;
+                    if n.restore {
+                        cur_src = w.src;
+                        cur_sport = *sport;
+                    } else {
+                        cur_src = host_addr(w.v6, 0x4000 | n.new_src);
+                        if let Some(p) = n.new_sport {
+                            cur_sport = p;
+                        }
                     }
                     translated = true;
                 }
